@@ -5,6 +5,8 @@
 """
 import concurrent.futures as cf
 import json
+import re
+import threading
 import os
 import shutil
 import time
@@ -52,6 +54,7 @@ class Ctx:
                 os.unlink(f)
         self.replay_rows = L.read_ndjson(replay) if replay else None
         self.thorough = tier == "thorough"
+        self.validated = []        # (module, events, cfg, env, heap, rejected ids) of every trace validation
 
     # ------------------------------------------------------------ steps
     def env(self, extra=None):
@@ -193,7 +196,7 @@ class Ctx:
         return events
 
     def validate(self, module, events, shards=None, cfg=None, env=None, timeout=1800, floor=0.5,
-                 heap="2g"):
+                 heap="2g", quiet=False):
         """Trace validation by TLC; returns list of bad records."""
         rows_n = sum(1 for _ in open(events))
         if rows_n == 0:
@@ -221,7 +224,10 @@ class Ctx:
                 # one retry: a rejection/infrastructure failure must repeat to be believed
                 r = L.tlc(module, cfg=cfg, env=e, workers=1, timeout=timeout, heap=heap)
             if not os.path.exists(v):
-                raise Infra("trace validation %s produced no verdict (rc=%d):\n%s" % (module, r.rc, r.out[-3000:]))
+                import re
+                at = re.findall(r"/\\ l = (\d+)", r.out)
+                raise Infra("trace validation %s produced no verdict (rc=%d)%s:\n%s"
+                            % (module, r.rc, (" AT_L=%s" % at[-1]) if at else "", r.out[-3000:]))
             with open(v) as f:
                 verdict = json.loads(f.readline())
             return verdict, r
@@ -238,10 +244,13 @@ class Ctx:
         self.traces += len(paths)
         self.events += n
         self.decisive += dec
-        log("[validate] %s: %d events, %d decisive, %d rejected, %.1fs (%d shards)"
-            % (module, n, dec, len(bad), time.time() - t0, len(paths)))
+        if not quiet:
+            log("[validate] %s: %d events, %d decisive, %d rejected, %.1fs (%d shards)"
+                % (module, n, dec, len(bad), time.time() - t0, len(paths)))
         if n != rows_n:
             raise Infra("trace validation consumed %d of %d events" % (n, rows_n))
+        if not getattr(self, "_in_selftest", False):
+            self.validated.append((module, events, cfg, env, heap, {b.get("id") for b in bad}))
         if self.replay_rows is None and dec < floor * n:
             raise Infra("vacuity guard: only %d of %d events decisive for %s" % (dec, n, module))
         # samples
@@ -252,6 +261,84 @@ class Ctx:
                 e = json.loads(line)
                 self.samples.append(sample_of(e))
         return bad
+
+    # ------------------------------------------------------------ binding self-test
+    def selftest(self, per_key=40):
+        """Corrupt recorded results field by field and demand that the trace specification rejects them:
+        a field whose corruption is never rejected is not bound by the specification."""
+        import random
+        rnd = random.Random(7)
+        report = {}
+        self._in_selftest = True
+        for module, events, cfg, env, heap, rejected in self.validated:
+            rows = [json.loads(l) for l in open(events)]
+            good = [r for r in rows if r["c"].get("id") not in rejected and isinstance(r.get("r"), dict)]
+            rnd.shuffle(good)
+            out, tags = [], {}
+            nid = 0
+            counts = {}
+            for ev in good:
+                for path in result_paths(ev["r"]):
+                    key = path_name(path)
+                    if counts.get(key, 0) >= per_key:
+                        continue
+                    c2 = json.loads(json.dumps(ev))
+                    if not corrupt_at(c2["r"], path):
+                        continue
+                    counts[key] = counts.get(key, 0) + 1
+                    nid += 1
+                    c2["c"]["id"] = 900000000 + nid
+                    tags[c2["c"]["id"]] = key
+                    out.append(c2)
+            if not out:
+                continue
+            saved = (self.events, self.decisive, self.traces, self.states, self.transitions, list(self.samples))
+            errored = {}
+            bad = []
+            lock = threading.Lock()
+
+            def chunk_run(ci, chunk):
+                cpath = "%s.corrupt%d" % (events, ci)
+                res = []
+                for attempt in range(len(chunk) + 1):
+                    if not chunk:
+                        break
+                    L.write_ndjson(cpath, chunk)
+                    try:
+                        res = self.validate(module, cpath, cfg=cfg, env=env, heap=heap, floor=0.0, shards=1, quiet=True)
+                        break
+                    except Infra as ex:
+                        # a corrupted event the specification cannot even evaluate (shape error): drop it, count it
+                        m = re.findall(r"AT_L=(\d+)", str(ex))
+                        if not m or int(m[-1]) - 1 >= len(chunk):
+                            raise
+                        idx = int(m[-1]) - 1
+                        k = tags[chunk[idx]["c"]["id"]]
+                        with lock:
+                            errored[k] = errored.get(k, 0) + 1
+                        chunk = chunk[:idx] + chunk[idx + 1:]
+                return res
+            chunks = [out[i:i + 60] for i in range(0, len(out), 60)]
+            with cf.ThreadPoolExecutor(max_workers=6) as ex:
+                for res in ex.map(lambda a: chunk_run(*a), list(enumerate(chunks))):
+                    bad += res
+            self.events, self.decisive, self.traces, self.states, self.transitions, self.samples = saved
+            rej = {}
+            for b in bad:
+                k = tags.get(b.get("id"))
+                if k:
+                    rej[k] = rej.get(k, 0) + 1
+            rep = {k: {"corrupted": counts[k], "rejected": rej.get(k, 0) + errored.get(k, 0),
+                       "unevaluable": errored.get(k, 0)} for k in sorted(counts)}
+            report[module + ":" + os.path.basename(events)] = rep
+            for k, v in rep.items():
+                mark = "UNBOUND " if v["rejected"] == 0 else ("weak    " if v["rejected"] * 4 < v["corrupted"] else "        ")
+                log("[selftest] %s %-28s %3d/%3d corrupted events rejected  (%s)" % (mark, k, v["rejected"], v["corrupted"], module))
+        self._in_selftest = False
+        os.makedirs(os.path.join(L.VERIF, "selftest"), exist_ok=True)
+        with open(os.path.join(L.VERIF, "selftest", self.pid + ".json"), "w") as f:
+            json.dump(report, f, indent=1, sort_keys=True)
+        return report
 
     def judge(self, bad, cases):
         """Attribute rejected events to cases; separate known findings from violations."""
@@ -332,6 +419,70 @@ class Ctx:
     def cleanup(self):
         if not self.keep:
             shutil.rmtree(self.dir, ignore_errors=True)
+
+
+def result_paths(r):
+    """Paths of the result fields that are corrupted one at a time: top-level keys, and the elements of
+    top-level lists / the fields of top-level objects one level down."""
+    paths = []
+    for k, v in r.items():
+        if k in ("live",):
+            continue
+        if isinstance(v, list) and v and len(v) <= 12:
+            paths += [(k, i) for i in range(len(v))]
+        elif isinstance(v, dict) and not L.is_term(v) and v:
+            paths += [(k, kk) for kk in v]
+        else:
+            paths.append((k,))
+    return paths
+
+
+def path_name(path):
+    return ".".join("*" if isinstance(p, int) else str(p) for p in path)
+
+
+def corrupt_value(v):
+    """A different value of the same shape, or None when there is nothing to change."""
+    if isinstance(v, bool):
+        return not v
+    if isinstance(v, int):
+        return v + 1
+    if isinstance(v, str):
+        return {"T": "F", "F": "T", "": "SymEngineException"}.get(v, "")
+    if L.is_term(v):
+        if v["k"] in ("Int", "Rat"):
+            w = dict(v)
+            w["n"] = v["n"] + 1
+            return w
+        return {"k": "Int", "a": [], "s": "", "n": 7919, "d": 1}
+    if isinstance(v, list):
+        for i, x in enumerate(v):
+            c = corrupt_value(x)
+            if c is not None:
+                return v[:i] + [c] + v[i + 1:]
+        return v + [1]
+    if isinstance(v, dict):
+        for k in sorted(v):
+            if k in ("exc",):
+                continue
+            c = corrupt_value(v[k])
+            if c is not None:
+                w = dict(v)
+                w[k] = c
+                return w
+        return None
+    return None
+
+
+def corrupt_at(r, path):
+    obj = r
+    for p in path[:-1]:
+        obj = obj[p]
+    c = corrupt_value(obj[path[-1]])
+    if c is None:
+        return False
+    obj[path[-1]] = c
+    return True
 
 
 def sample_of(e):
